@@ -13,7 +13,7 @@ import (
 	"verif/harness/internal/simkit"
 )
 
-const commonRule = "One case = a fresh real NFSv4.0 program (NewNFS40Program + OpenedFilesPool + NFS handle allocator + InMemoryPrepopulatedDirectory with pool-backed files wrapped by counting leaves) inside testing/synctest with a simulated clock and a counter-based random number generator. 1-3 protocol-following client simulators (client IDs, seqids, state IDs, file handles learned from replies only) issue generated COMPOUNDs: SETCLIENTID(+new verifier), SETCLIENTID_CONFIRM, RENEW, OPEN (CLAIM_NULL; nocreate/UNCHECKED/GUARDED/EXCLUSIVE; read/write/both; deny), OPEN_CONFIRM, OPEN_DOWNGRADE, CLOSE, LOCK (new / existing lock-owner), LOCKT, LOCKU, RELEASE_LOCKOWNER, READ/WRITE/SETATTR(size) with open, lock and special state IDs, REMOVE, LOOKUP, PUTFH; clock advances (also exactly at / 1ns past the lease), vanishing clients, drawn deviations (old/future/foreign/other-file/dead/wrong-prefix/special state IDs, wrong or missing file handle, old/future seqids, stale/foreign/unconfirmed client IDs, bad ranges), retransmissions (identical, other operation, other state ID; also of a request that is still parked, any number of identical ones waiting behind it), and requests parked inside VirtualOpenChild (before/after the directory) or leaf I/O while other requests, lease expiry, re-registration and duplicates arrive. TIME AROUND A PARKED OPEN (window.go): a generated 'window' action parks an OPEN (preferably of an open-owner that is unconfirmed or without open files), lets drawn time pass while it is parked (none / less than a lease / exactly a lease / a lease + 1ns / more), issues 0-2 further requests of the same open-owner that wait behind it (identical retransmissions, the owner's next OPEN / CLOSE / OPEN_DOWNGRADE / OPEN_CONFIRM with the following seqids), holds drawn ones of them - by the harness's clock, inside the Now() call at the top of enter() - when the OPEN completes and they wake up, then lets drawn time pass again (same classes; the client renewing in between with RENEW or a request of another open-owner, staying silent, or re-registering), lets the held waiters go in a drawn order, and sends OPEN_CONFIRM; the generic release action picks held waiters too; waiters that are not identical retransmissions of one request are always held, so the order of service is the harness's. The model restarts a request that waited from its lookups and forgets unused open-owners (unconfirmed or without open files, no transaction in progress) a lease after their last transaction completed, as nfs40_program.go documents. All clients use the same open-owner / lock-owner byte strings; every owner's seqid sequence starts at a drawn value (0, 1, 2, or 2^32-3..2^32-1, so that it wraps around within the case). OPEN and READ/WRITE/SETATTR may carry a one-shot fault of the file system below the server (VirtualOpenChild fails before or after the real directory acted, file allocator fails, VirtualOpenSelf fails, leaf I/O fails). An oracle of any of the properties C14/C18/C19/C20 is fatal in every test function (the message names its property). A reference model (RFC 7530 state machine + per-byte lock table, fed only by requests, replies and the clock) predicts every reply status and the blocking behaviour. "
+const commonRule = "One case = a fresh real NFSv4.0 program (NewNFS40Program + OpenedFilesPool + NFS handle allocator + InMemoryPrepopulatedDirectory with pool-backed files wrapped by counting leaves) inside testing/synctest with a simulated clock and a counter-based random number generator. 1-3 protocol-following client simulators (client IDs, seqids, state IDs, file handles learned from replies only) issue generated COMPOUNDs: SETCLIENTID(+new verifier), SETCLIENTID_CONFIRM, RENEW, OPEN (CLAIM_NULL; nocreate/UNCHECKED/GUARDED/EXCLUSIVE; read/write/both; deny), OPEN_CONFIRM, OPEN_DOWNGRADE, CLOSE, LOCK (new / existing lock-owner), LOCKT, LOCKU, RELEASE_LOCKOWNER, READ/WRITE/SETATTR(size) with open, lock and special state IDs, REMOVE, LOOKUP, PUTFH; clock advances (also exactly at / 1ns past the lease), vanishing clients, drawn deviations (old/future/foreign/other-file/dead/wrong-prefix/special state IDs, wrong or missing file handle, old/future seqids, stale/foreign/unconfirmed client IDs, bad ranges), retransmissions (identical, other operation, other state ID; also of a request that is still parked, any number of identical ones waiting behind it), and requests parked inside VirtualOpenChild (before/after the directory) or leaf I/O while other requests, lease expiry, re-registration and duplicates arrive. TIME AROUND A PARKED OPEN (window.go): a generated 'window' action parks an OPEN (preferably of an open-owner that is unconfirmed or without open files), lets drawn time pass while it is parked (none / less than a lease / exactly a lease / a lease + 1ns / more), issues 0-2 further requests of the same open-owner that wait behind it (identical retransmissions, the owner's next OPEN / CLOSE / OPEN_DOWNGRADE / OPEN_CONFIRM with the following seqids), holds drawn ones of them - by the harness's clock, inside the Now() call at the top of enter() - when the OPEN completes and they wake up, then lets drawn time pass again (same classes; the client renewing in between with RENEW or a request of another open-owner, staying silent, or re-registering), lets the held waiters go in a drawn order, and sends OPEN_CONFIRM; the generic release action picks held waiters too; waiters that are not identical retransmissions of one request are always held, so the order of service is the harness's. The model restarts a request that waited from its lookups and forgets unused open-owners (unconfirmed or without open files, no transaction in progress) a lease after their last transaction completed, as nfs40_program.go documents. All clients use the same open-owner / lock-owner byte strings; every owner's seqid sequence starts at a drawn value (0, 1, 2, or 2^32-3..2^32-1, so that it wraps around within the case). STATE ID SEQIDS AT THE WRAP-AROUND (preset.go): a generated 'preset_stateid_seqid' step picks a live, confirmed open state ID or a lock state ID of a client simulator with nothing in flight and places its seqid at 2^32-3..2^32-1 through the hook VerifSetNFS40StateIDSeqID (what 2^32 well-formed requests would have done to the counter; client simulator and model are told); the following steps prefer clients, owners and state IDs next to the wrap-around (OPEN of the same file, OPEN_DOWNGRADE, LOCK with an existing lock-owner, LOCKU, CLOSE, I/O, old/future seqids drawn on both sides of the wrap), and the operation that takes a state ID from 2^32-1 to 1 is retransmitted at once with 65% (labels stateid_seqid_preset, stateid_seqid_wrapped:<op>, replay_of_wrapping_operation:<op>); the model follows nextSeqID as documented (successor of 2^32-1 is 1) for the state ID in replies, the one the next request must carry (older => NFS4ERR_OLD_STATEID, newer => NFS4ERR_BAD_STATEID) and the replay check (state ID of the cached reply is the successor of the request's). OPEN and READ/WRITE/SETATTR may carry a one-shot fault of the file system below the server (VirtualOpenChild fails before or after the real directory acted, file allocator fails, VirtualOpenSelf fails, leaf I/O fails). An oracle of any of the properties C14/C18/C19/C20 is fatal in every test function (the message names its property). A reference model (RFC 7530 state machine + per-byte lock table, fed only by requests, replies and the clock) predicts every reply status and the blocking behaviour. "
 
 func labelsOf(w *world) []string {
 	set := map[string]bool{}
@@ -180,7 +180,7 @@ var profC18 = &profile{
 	ops: weights(map[string]int{
 		kOpen: 9, kOpenConfirm: 5, kOpenDowngrade: 5, kClose: 3, kLock: 9, kLocku: 1, kLockt: 1, kReleaseLockowner: 2,
 		kRead: 3, kWrite: 3, kSetattr: 1, kRemove: 2, kLookup: 1, kPutfh: 3,
-		kSetclientid: 3, kSetclientidConfirm: 4, kRenew: 1, "advance": 4, "vanish": 1, "release": 6, "retx": 1, "window": 4,
+		kSetclientid: 3, kSetclientidConfirm: 4, kRenew: 1, "advance": 4, "vanish": 1, "release": 6, "retx": 1, "window": 4, kPreset: 2,
 	}),
 	minSteps: 30, maxSteps: 100, devPct: 10, parkPct: 15, warmPct: 90, confirmPct: 85, sharedLO: true, faultPct: 12, gatePct: 40,
 	nontrivial: func(ev, labels map[string]int) bool {
@@ -194,7 +194,7 @@ var profC19 = &profile{
 		kOpen: 8, kOpenConfirm: 6, kOpenDowngrade: 2, kClose: 5, kLock: 6, kLocku: 3, kReleaseLockowner: 1,
 		kRead: 1, kWrite: 1, kRemove: 1, kPutfh: 1,
 		kSetclientid: 1, kSetclientidConfirm: 2, kRenew: 1, "advance": 2, "release": 14,
-		"retx": 10, "retx_diff_op": 3, "retx_diff_sid": 3, "window": 4,
+		"retx": 10, "retx_diff_op": 3, "retx_diff_sid": 3, "window": 4, kPreset: 4,
 	}),
 	minSteps: 15, maxSteps: 60, devPct: 10, parkPct: 30, warmPct: 90, confirmPct: 85, sharedLO: true, inflightRetxPct: 70, dupParkedPct: 35, gatePct: 30,
 	nontrivial: func(ev, labels map[string]int) bool {
@@ -207,7 +207,7 @@ var profC20 = &profile{
 	ops: weights(map[string]int{
 		kOpen: 5, kOpenConfirm: 4, kClose: 2, kLock: 26, kLocku: 8, kLockt: 6, kReleaseLockowner: 3,
 		kRead: 1, kWrite: 1, kOpenDowngrade: 1,
-		kSetclientid: 1, kSetclientidConfirm: 1, kRenew: 1, "advance": 2, "release": 2, "retx": 1, "window": 1,
+		kSetclientid: 1, kSetclientidConfirm: 1, kRenew: 1, "advance": 2, "release": 2, "retx": 1, "window": 1, kPreset: 2,
 	}),
 	minSteps: 20, maxSteps: 70, devPct: 8, parkPct: 5, gatePct: 30, warmPct: 95, warmOpen: true, confirmPct: 95, sharedLO: true, scanLocks: true,
 	nontrivial: func(ev, labels map[string]int) bool {
@@ -223,7 +223,7 @@ var profC14 = &profile{
 	ops: weights(map[string]int{
 		kOpen: 10, kOpenConfirm: 5, kOpenDowngrade: 3, kClose: 3, kLock: 8, kLocku: 2, kLockt: 4, kReleaseLockowner: 2,
 		kRead: 4, kWrite: 4, kSetattr: 3, kRemove: 2, kLookup: 1, kPutfh: 2,
-		kSetclientid: 2, kSetclientidConfirm: 3, kRenew: 1, "advance": 3, "vanish": 1, "release": 6, "retx": 3, "retx_diff_op": 1, "retx_diff_sid": 1, "window": 3,
+		kSetclientid: 2, kSetclientidConfirm: 3, kRenew: 1, "advance": 3, "vanish": 1, "release": 6, "retx": 3, "retx_diff_op": 1, "retx_diff_sid": 1, "window": 3, kPreset: 1,
 	}),
 	minSteps: 20, maxSteps: 70, devPct: 20, parkPct: 20, gatePct: 40, warmPct: 90, confirmPct: 85, sharedLO: true, faultPct: 55, inflightRetxPct: 50, dupParkedPct: 10,
 	nontrivial: func(ev, labels map[string]int) bool {
